@@ -256,8 +256,11 @@ def run_canaries(mod, tier, seed):
 def main(mod, tier, seed, replay=None):
     t0 = time.time()
     prop = mod.PROP
-    os.makedirs(os.path.join(VERIF, "evidence"), exist_ok=True)
-    evidence_path = os.path.join(VERIF, "evidence", f"{prop}.json")
+    # VERIF_EVIDENCE_DIR: where a run against a deliberately changed tree (tools/try_patch.sh, tools/seeded_matrix.sh) puts
+    # its evidence, so that evidence/ always describes a run on /repo itself
+    evdir = os.environ.get("VERIF_EVIDENCE_DIR") or os.path.join(VERIF, "evidence")
+    os.makedirs(evdir, exist_ok=True)
+    evidence_path = os.path.join(evdir, f"{prop}.json")
     known = [k for k in _load_known() if k.get("property") == prop]
     violations, known_hits, undecided_msgs = [], [], []
     cross = None
